@@ -202,6 +202,33 @@ pub fn generate(seed: u64) -> Sc {
     }
 }
 
+/// alphabet of the bounded-exhaustive part: a 5-block forest under two absent parents
+/// (1<-100, 2<-1, 3<-1, 4<-2, 5<-101), every release target, two clean-up epochs
+pub fn alphabet() -> Vec<Op> {
+    let ins = |id, parent, epoch, number| Op::Insert { id, parent, epoch, number };
+    vec![
+        ins(1, 100, 1, 11),
+        ins(2, 1, 2, 12),
+        ins(3, 1, 2, 12),
+        ins(4, 2, 9, 13),
+        ins(5, 101, 1, 21),
+        Op::Release { parent: 100 },
+        Op::Release { parent: 1 },
+        Op::Release { parent: 2 },
+        Op::Release { parent: 101 },
+        Op::Clean { tip_epoch: 9 },
+        Op::Clean { tip_epoch: 20 },
+    ]
+}
+
+pub fn generate_enum(index: u64) -> Sc {
+    Sc {
+        engine: ENGINE.into(),
+        seed: index,
+        ops: crate::nth_sequence(&alphabet(), index),
+    }
+}
+
 fn lonely(id: u64, b: &MBlock) -> LonelyBlockHash {
     LonelyBlockHash {
         block_number_and_hash: BlockNumberAndHash::new(b.number, h32(SPACE, id)),
